@@ -288,6 +288,8 @@ func C11(p *core.Program, r *core.Report) {
 		})
 	}
 	checkNilResetFields(p, r, "pkg/cla/tcpclv4")
+	r.Analysed["error_returning_functions_checked"] = checkErrorsNotSwallowedIn(p, r, "pkg/cla/tcpclv4", utilsPkg, msgsPkg, "pkg/cla/tcpclv4/internal/stages")
+	checkLoopVarCapture(p, r)
 
 	tb := p.Func(utilsPkg, "IncomingTransfer", "ToBundle")
 	for _, c := range core.CallsTo(tb, bp7+".Bundle.UnmarshalCbor") {
